@@ -22,6 +22,7 @@ pub fn dom(thorough: bool) -> Dom {
         "Zz_9".into(),
         "é✓".into(),
         "x".repeat(64),
+        "q\"\\\n\t\u{0}\u{7f}\u{2028}/".into(),
     ];
     if thorough {
         strings.push("y".repeat(16384));
